@@ -4,6 +4,9 @@ Stdlib values on the wire: date = proleptic Gregorian ordinal; time = microsecon
 aware datetime = `ordinal us off` (fixed offset seconds); timedelta = `days seconds microseconds`.
 Pyoda values: calendar = `ord minDays maxDays`, date = calendar + day number, time = nanosecond of day,
 instant / duration = `days nod`, offset = seconds.
+Datetimes with an arbitrary tzinfo (`br.*.aware`): `ordinal us fold V0 V1` where the tzinfo is a test class whose
+utcoffset(dt) returns V[dt.fold]; a view V is `k d s u`: k = 0 no tzinfo at all, 1 utcoffset() returns None,
+2 utcoffset() returns timedelta(days=d, seconds=s, microseconds=u) (any size, microsecond resolution).
 """
 from __future__ import annotations
 
@@ -24,7 +27,7 @@ TD_MAX = 999_999_999
 
 META = {
     "property": "C15",
-    "proof_modules": ["PyodaProofs.C15", "PyodaProofs.C15Lemmas"],
+    "proof_modules": ["PyodaProofs.C15", "PyodaProofs.C15Lemmas", "PyodaProofs.C15Aware"],
     "drivers": ["drv_bridge"],
     "theorems": [
         "Pyoda.C15.date_from_to_id",
@@ -52,16 +55,41 @@ META = {
         "Pyoda.C15.dur_to_raises_iff_out_of_range",
         "Pyoda.C15.off_from_raises_iff_out_of_range",
         "Pyoda.C15.inst_from_raises_iff",
+        "Pyoda.C15.inst_aware_exact",
+        "Pyoda.C15.inst_aware_raises_iff",
+        "Pyoda.C15.inst_aware_to_id",
+        "Pyoda.C15.inst_aware_fixed",
+        "Pyoda.C15.aware_without_offset_raises",
+        "Pyoda.C15.odtFromAware_eq",
+        "Pyoda.C15.odt_aware_raises_iff",
+        "Pyoda.C15.odt_aware_error_is_valueError",
+        "Pyoda.C15.odt_aware_exact",
+        "Pyoda.C15.odt_aware_same_instant",
+        "Pyoda.C15.odt_aware_fixed",
+        "Pyoda.C15.odt_aware_to_id",
+        "Pyoda.C15.ldt_any",
+        "Pyoda.C15.time_any_from_to_id",
     ],
     "trusted_base": [
         "CPython datetime/timedelta arithmetic and normalisation as modelled by PyTimedelta.ofUs / PyDateTime.addTd / sub (sampled by every bridge op)",
         "Gregorian year/month/day <-> day number of both libraries (C01/C02 and the stdlib): the model passes day number <-> ordinal directly, `gregorian.year < 1` is `ordinal < 1`",
         "Offset.from_timedelta goes through float total_seconds()*1e7; exact outcome (truncated whole seconds, range test) on the timedelta domain is sampled around every whole second and the +-18 h edge",
+        "arbitrary tzinfo objects: a conversion observes of dt.tzinfo only whether it is None and what tzinfo.utcoffset(dt) returns for that dt (fold included) - "
+        "None or a timedelta; the model's TzView is that observation and suite bridge.aware drives the real code with a tzinfo subclass whose utcoffset is an "
+        "arbitrary timedelta per fold (microsecond resolution, beyond +-24 h, up to timedelta's own range); dst()/tzname() are never called by the conversions",
     ],
     "partial": [
-        "tzinfo objects other than fixed-offset datetime.timezone, and datetime.time tzinfo/fold, are outside the model (from_time ignores them)",
+        "OffsetDateTime.from_aware_datetime with a utc offset that has a fraction of a second: the model carries the intended behaviour (ValueError); the "
+        "code truncates the fraction (Offset.from_timedelta), pinned by a ported test - known finding odt-from-subsecond-offset-truncated",
+        "Instant.from_aware_datetime with a tzinfo whose utcoffset() returns None raises TypeError (from _to_ticks) where the docstring promises ValueError; "
+        "modelled as coded (it raises, which is all the property asks)",
+        "datetime.time with tzinfo/fold: LocalTime has no offset; from_time keeps the wall time and ignores both (modelled so, time_any_from_to_id; going "
+        "back yields the naive wall time, not the aware time)",
+        "real zoneinfo.ZoneInfo zones are exercised by the direct oracle zoneinfo.zones only (their utcoffset is a whole number of seconds, a special case of the modelled views)",
     ],
-    "rule": "stdlib values at min/max, years 1/2/9999, leap days, microseconds 0/1/999999, sub-microsecond remainders of both signs, non-ISO calendars, offsets in +-18 h (and beyond, to see the error); distinct = distinct op line; non-trivial = every op",
+    "rule": "stdlib values at min/max, years 1/2/9999, leap days, microseconds 0/1/999999, sub-microsecond remainders of both signs, non-ISO calendars, offsets in +-18 h (and beyond, to see the error); datetimes with a custom tzinfo: utc offsets of whole minutes/seconds, "
+            "fractions of a second (+-1 us, half seconds, 999999 us), the +-18 h and +-24 h edges and beyond, up to +-999999999 days, offsets that put local - offset on the "
+            "ends of the Instant and datetime ranges, fold 0/1 with different answers, utcoffset() None, no tzinfo; distinct = distinct op line; non-trivial = every op",
 }
 
 
@@ -88,6 +116,57 @@ def py_dt(o, us, off=None):
     if off is not None:
         x = x.replace(tzinfo=dtm.timezone(dtm.timedelta(seconds=off)))
     return x
+
+
+class FoldTz(dtm.tzinfo):
+    """a tzinfo whose utcoffset is whatever the op says, separately for fold 0 and fold 1 (None, or a timedelta of any
+    size and microsecond resolution); dst/tzname are not used by the conversions"""
+
+    def __init__(self, v0, v1):
+        self.v = (v0, v1)
+
+    def utcoffset(self, dt):
+        return self.v[0 if dt is None else dt.fold]
+
+    def dst(self, dt):
+        return None
+
+    def tzname(self, dt):
+        return "fold-tz"
+
+    def __repr__(self):
+        return f"FoldTz({self.v[0]!r}, {self.v[1]!r})"
+
+
+def _view(v):
+    return None if v[0] == 1 else dtm.timedelta(days=v[1], seconds=v[2], microseconds=v[3])
+
+
+def _tz_of(views):
+    """tzinfo object for two views; None when the views say 'no tzinfo' (k = 0 for the fold in use is handled by caller)"""
+    return FoldTz(_view(views[0:4]), _view(views[4:8]))
+
+
+def aware_dt(o, us, fold, views):
+    x = py_dt(o, us).replace(fold=fold)
+    if views[4 * fold] == 0:
+        return x                                   # no tzinfo at all
+    return x.replace(tzinfo=_tz_of(views))
+
+
+def aware_time(us, fold, views):
+    t = py_time(us).replace(fold=fold)
+    if views[4 * fold] == 0:
+        return t
+    return t.replace(tzinfo=_tz_of(views))
+
+
+def view_us(views, fold):
+    """(kind, utc offset in microseconds or None) the conversion can observe for this fold"""
+    v = views[4 * fold: 4 * fold + 4]
+    if v[0] != 2:
+        return v[0], None
+    return 2, v[1] * UPD + v[2] * 10**6 + v[3]
 
 
 def us_of(t):
@@ -148,6 +227,15 @@ def impl(t):
         return s_td(P.Offset.from_seconds(a[0]).to_timedelta())
     if op == "br.off.from":
         return str(P.Offset.from_timedelta(dtm.timedelta(days=a[0], seconds=a[1], microseconds=a[2])).seconds)
+    if op == "br.inst.aware":
+        return c11.s_inst(P.Instant.from_aware_datetime(aware_dt(a[0], a[1], a[2], a[3:11])))
+    if op == "br.odt.aware":
+        return c11.s_odt(P.OffsetDateTime.from_aware_datetime(aware_dt(a[0], a[1], a[2], a[3:11])))
+    if op == "br.ldt.aware":
+        r = P.LocalDateTime.from_naive_datetime(aware_dt(a[0], a[1], a[2], a[6:14]), c11.cal_of(a[3]))
+        return ints(int(r.calendar._ordinal), r.date._days_since_epoch, r.nanosecond_of_day)
+    if op == "br.time.aware":
+        return str(P.LocalTime.from_time(aware_time(a[0], a[1], a[2:10])).nanosecond_of_day)
     if op == "br.ticks.dt":
         from pyoda_time.utility._csharp_compatibility import _to_ticks
         x = py_dt(a[0], a[1])
@@ -185,7 +273,29 @@ def fail(key, what):
 YEAR1 = "to-naive-datetime-rejects-year-1"
 
 
+_key_count = {}
+_held_back = {}
+KEY_LIMIT = 40
+
+
 def oracle(t):
+    """the framework keeps at most 2000 failures per run; one finding hit by thousands of ops (the recorded sub-second
+    utcoffset truncation) must not crowd out others, so beyond KEY_LIMIT hits of one key the failure is held back on
+    the first evaluation of an op and returned when the same op is evaluated again (the search around a
+    model/implementation disagreement)"""
+    line = " ".join(t)
+    if line in _held_back:
+        return _held_back[line]
+    f = oracle1(t)
+    if f:
+        _key_count[f["key"]] = _key_count.get(f["key"], 0) + 1
+        _held_back[line] = f                     # a second evaluation of this op reports it in any case
+        if _key_count[f["key"]] > KEY_LIMIT:
+            return None
+    return f
+
+
+def oracle1(t):
     P = _P()
     c11 = _c11()
     op = t[0]
@@ -397,6 +507,8 @@ def oracle(t):
         if r != dtm.timedelta(seconds=a[0]):
             return fail("off-to", f"{line}: to_timedelta() = {r!r}")
         return None
+    if op in ("br.inst.aware", "br.odt.aware", "br.ldt.aware", "br.time.aware"):
+        return oracle_aware(op, a, line)
     if op == "br.ticks.dt":
         if not (1 <= a[0] <= MAX_ORD and 0 <= a[1] < UPD):
             return None
@@ -408,9 +520,114 @@ def oracle(t):
     return None
 
 
+SUBSEC = "odt-from-subsecond-offset-truncated"
+
+
+def _views_ok(v):
+    return all(v[i] in (0, 1, 2) and abs(v[i + 1]) <= TD_MAX and 0 <= v[i + 2] < 86400 and 0 <= v[i + 3] < 10**6 for i in (0, 4))
+
+
+def oracle_aware(op, a, line):
+    """datetimes / times carrying an arbitrary tzinfo: the conversion either denotes exactly local - utcoffset(dt)
+    (for the fold of dt) or raises; nothing in between.  Reference: Python integers."""
+    P = _P()
+    c11 = _c11()
+    if op == "br.time.aware":
+        us, fold, views = a[0], a[1], a[2:10]
+        if not (0 <= us < UPD and fold in (0, 1) and _views_ok(views)):
+            return None
+        t = aware_time(us, fold, views)
+        e = _raises(lambda: P.LocalTime.from_time(t))
+        if e:
+            return fail("time-from-raises", f"{line}: from_time({t!r}) raised {e}")
+        lt = P.LocalTime.from_time(t)
+        if lt.nanosecond_of_day != us * 1000:
+            return fail("time-from-inexact", f"{line}: from_time({t!r}) = {lt.nanosecond_of_day} ns, the wall time is {us * 1000} ns")
+        r = lt.to_time()
+        if r != py_time(us) or r.tzinfo is not None or r.fold != 0:
+            return fail("time-roundtrip", f"{line}: from_time({t!r}).to_time() = {r!r}, expected the naive wall time")
+        return None
+    o, us, fold = a[0], a[1], a[2]
+    views = a[6:14] if op == "br.ldt.aware" else a[3:11]
+    if not (1 <= o <= MAX_ORD and 0 <= us < UPD and fold in (0, 1) and _views_ok(views)):
+        return None
+    x = aware_dt(o, us, fold, views)
+    kind, off = view_us(views, fold)
+    if op == "br.ldt.aware":
+        c = c11.cal_of(a[3])
+        e = _raises(lambda: P.LocalDateTime.from_naive_datetime(x, c))
+        if kind != 0:
+            # a datetime that carries a tzinfo is not a local date-time: refusing it is the documented behaviour
+            return None if e else fail("ldt-from-aware-accepted", f"{line}: from_naive_datetime({x!r}) accepted a datetime with a tzinfo")
+        if not c._min_days <= o - ORD0 <= c._max_days:
+            return None if e else fail("ldt-from-out-of-calendar-returned", f"{line}: from_naive_datetime({x}, {c}) returned although the day is outside the calendar")
+        if e:
+            return fail("ldt-from-raises-in-range", f"{line}: from_naive_datetime({x!r}, {c}) raised {e}")
+        v = P.LocalDateTime.from_naive_datetime(x, c)
+        if (v.date._days_since_epoch, v.nanosecond_of_day) != (o - ORD0, us * 1000):
+            return fail("ldt-from-inexact", f"{line}: from_naive_datetime({x!r}) = day {v.date._days_since_epoch}, {v.nanosecond_of_day} ns")
+        return None
+    fn = P.Instant.from_aware_datetime if op == "br.inst.aware" else P.OffsetDateTime.from_aware_datetime
+    try:
+        got, exc = fn(x), None
+    except (ValueError, OverflowError, TypeError, RuntimeError) as ex:
+        got, exc = None, type(ex).__name__
+    if kind != 2:
+        # no tzinfo, or a tzinfo without an offset: a naive datetime names no instant and no offset
+        return None if exc else fail("aware-from-naive-accepted", f"{line}: {fn.__qualname__}({x!r}) returned a value for a datetime without a utc offset")
+    local_us = (o - ORD0) * UPD + us
+    if op == "br.inst.aware":
+        ns = (local_us - off) * 1000
+        if not IMIN * NPD <= ns <= (IMAX + 1) * NPD - 1:
+            return None if exc else fail("inst-from-out-of-range-returned", f"{line}: from_aware_datetime({x!r}) returned {c11.s_inst(got)}; local - offset = {ns} ns is outside Instant's range")
+        if exc:
+            return fail("inst-from-raises", f"{line}: from_aware_datetime({x!r}) raised {exc}; local - offset = {ns} ns is inside Instant's range")
+        if got._days_since_epoch * NPD + got._nanosecond_of_day != ns or not 0 <= got._nanosecond_of_day < NPD:
+            return fail("inst-from-inexact", f"{line}: from_aware_datetime({x!r}) = {c11.s_inst(got)}, exact local - offset is {divmod(ns, NPD)}")
+        if -(ORD0 - 1) * NPD <= ns:
+            # the way back gives the same instant in UTC (compared field by field: `==` between aware datetimes of
+            # different zones is always False when a utcoffset depends on fold, PEP 495)
+            if abs(off) < 86400 * 10**6:
+                ref = x - dtm.datetime(1970, 1, 1, tzinfo=UTC)          # the stdlib's own arithmetic agrees
+                if (ref.days * UPD + ref.seconds * 10**6 + ref.microseconds) * 1000 != ns:
+                    return fail("oracle-exception", f"{line}: stdlib subtraction disagrees with the integer reference")
+            r = got.to_datetime_utc()
+            if (r.toordinal(), us_of(r)) != divmod(local_us - off + ORD0 * UPD, UPD) or r.utcoffset() != dtm.timedelta(0):
+                return fail("inst-roundtrip", f"{line}: from_aware_datetime({x!r}).to_datetime_utc() = {r!r}")
+        return None
+    # OffsetDateTime: local part exact, offset exact — or raise
+    representable = off % 10**6 == 0 and abs(off) <= OFF_MAX * 10**6
+    if not representable:
+        if exc:
+            return None
+        if off % 10**6 != 0 and abs(off) <= OFF_MAX * 10**6 + 999_999:
+            return fail(SUBSEC, f"{line}: OffsetDateTime.from_aware_datetime({x!r}) silently dropped the fraction of the utc offset "
+                        f"{off} us and returned offset {got.offset.seconds} s: the result denotes the instant "
+                        f"{divmod((local_us * 10**6 - got.offset.seconds * 10**12) // 10**3, NPD)} (days, ns of day), the datetime is the instant "
+                        f"{divmod((local_us - off) * 1000, NPD)}")
+        return fail("odt-from-offset-out-of-range-returned", f"{line}: accepted utc offset {off} us")
+    if exc:
+        return fail("odt-from-raises-in-range", f"{line}: from_aware_datetime({x!r}) raised {exc}")
+    if c11.s_odt(got) != ints(0, o - ORD0, us * 1000, off // 10**6):
+        return fail("odt-from-inexact", f"{line}: from_aware_datetime({x!r}) = {c11.s_odt(got)}")
+    ns = (local_us - off) * 1000
+    if IMIN * NPD <= ns <= (IMAX + 1) * NPD - 1:       # (late on 9999-12-31 at a negative offset the instant is past Instant.max_value)
+        i = got.to_instant()
+        if i._days_since_epoch * NPD + i._nanosecond_of_day != ns:
+            return fail("odt-from-other-instant", f"{line}: from_aware_datetime({x!r}).to_instant() = {c11.s_inst(i)}")
+    e = _raises(got.to_aware_datetime)
+    if e:
+        return fail(YEAR1 if x.year == 1 else "odt-roundtrip-raises", f"{line}: from_aware_datetime({x!r}).to_aware_datetime() raised {e}")
+    r = got.to_aware_datetime()
+    if r.utcoffset() != dtm.timedelta(microseconds=off) or (r.toordinal(), us_of(r)) != (o, us) or (views[0:4] == views[4:8] and r != x):
+        return fail("odt-roundtrip", f"{line}: from_aware_datetime({x!r}).to_aware_datetime() = {r!r}")
+    return None
+
+
 PERTURB = {"br.date.to": [4], "br.date.from": [1], "br.time.to": [1], "br.time.from": [1], "br.ldt.to": [4, 5],
            "br.ldt.from": [1, 2], "br.inst.to": [1, 2], "br.inst.from": [1, 2, 3], "br.odt.to": [4, 5, 6],
-           "br.odt.from": [1, 2, 3], "br.dur.to": [1, 2], "br.dur.from": [1, 2, 3], "br.off.from": [1, 2, 3], "br.off.to": [1]}
+           "br.odt.from": [1, 2, 3], "br.dur.to": [1, 2], "br.dur.from": [1, 2, 3], "br.off.from": [1, 2, 3], "br.off.to": [1],
+           "br.inst.aware": [1, 2, 6, 7, 10, 11], "br.odt.aware": [1, 2, 6, 7, 10, 11], "br.ldt.aware": [1, 2], "br.time.aware": [1]}
 
 
 def neighbours(t):
@@ -452,6 +669,84 @@ def gen_us(rng):
 def gen_nod(rng):
     us = gen_us(rng)
     return us * 1000 + rng.choice([0, 0, 1, 999, 99, 100, 500, rng.randint(0, 999)])
+
+
+WHOLE_OFFS = [0, 3600, 19800, 34200, 20717, 64800, 64799, 64801, 86399, 86400, 86401, 90000, 108000]
+
+
+def gen_view(rng, local_us=None):
+    """one tzinfo view `k d s u`: mostly utc offsets — whole minutes and seconds, fractions of a second, the +-18 h and
+    +-24 h edges, beyond them, huge ones, and offsets that put local - offset at the ends of the Instant range"""
+    r = rng.random()
+    if r < 0.03:
+        return (0, 0, 0, 0)
+    if r < 0.07:
+        return (1, 0, 0, 0)
+    r = rng.random()
+    if r < 0.45:
+        off = rng.choice(WHOLE_OFFS) * rng.choice([1, -1]) * 10**6
+    elif r < 0.6:
+        off = rng.randint(-OFF_MAX, OFF_MAX) * 10**6
+    elif r < 0.7:
+        off = rng.randint(-OFF_MAX * 10**6, OFF_MAX * 10**6)
+    elif r < 0.8:
+        off = rng.randint(-30 * 3600 * 10**6, 30 * 3600 * 10**6)
+    elif r < 0.9 and local_us is not None:
+        edge = rng.choice([IMIN * UPD, (IMAX + 1) * UPD - 1, -(ORD0 - 1) * UPD])      # local - off lands on an end of a range
+        off = local_us - edge + rng.choice([0, 1, -1, 10**6, -10**6, rng.randint(-10**7, 10**7)])
+    elif r < 0.95:
+        off = rng.randint(-TD_MAX, TD_MAX) * UPD + rng.randint(0, UPD - 1)
+    else:
+        off = rng.choice([-TD_MAX * UPD, (TD_MAX + 1) * UPD - 1, TD_MAX * UPD])
+    if rng.random() < 0.35:
+        off += rng.choice([1, -1, 500_000, -500_000, 999_999, -999_999, rng.randint(-999_999, 999_999)])
+    off = max(-TD_MAX * UPD, min((TD_MAX + 1) * UPD - 1, off))
+    d, rem = divmod(off, UPD)
+    return (2, d, rem // 10**6, rem % 10**6)
+
+
+def gen_aware_ops(ctx, n):
+    rng = ctx.rng
+    c11 = _c11()
+    ops = []
+    for _ in range(n):
+        od, us = gen_ord(rng), gen_us(rng)
+        local_us = (od - ORD0) * UPD + us
+        fold = rng.choice([0, 0, 1])
+        v = gen_view(rng, local_us)
+        w = v if rng.random() < 0.4 else gen_view(rng, local_us)       # the other fold's answer: often different
+        views = (v + w) if fold == 0 else (w + v)
+        tok = ints(od, us, fold)
+        k = rng.random()
+        if k < 0.45:
+            ops.append(f"br.odt.aware {tok} {ints(*views)}")
+            if rng.random() < 0.5:
+                ops.append(f"br.inst.aware {tok} {ints(*views)}")
+        elif k < 0.85:
+            ops.append(f"br.inst.aware {tok} {ints(*views)}")
+        elif k < 0.93:
+            o = rng.choice(c11.CAL_ORDS) if rng.random() < 0.5 else 0
+            if c11.day_ok(o, od - ORD0):
+                ops.append(f"br.ldt.aware {tok} {c11.cal_tok(o)} {ints(*views)}")
+        else:
+            ops.append(f"br.time.aware {us} {fold} {ints(*views)}")
+    # fixed corners: both ends of datetime with offsets that just fit / just do not fit
+    Z = "2 0 0 0"
+    for od, us in ((1, 0), (1, 1), (MAX_ORD, UPD - 1), (MAX_ORD, UPD - 2), (ORD0, 0)):
+        for off in (0, 1, -1, 500_000, -500_000, 10**6, -10**6, OFF_MAX * 10**6, -OFF_MAX * 10**6, OFF_MAX * 10**6 + 1,
+                    -OFF_MAX * 10**6 - 1, OFF_MAX * 10**6 - 1, 86400 * 10**6, -86400 * 10**6):
+            d, rem = divmod(off, UPD)
+            v = f"2 {d} {rem // 10**6} {rem % 10**6}"
+            for fold, views in ((0, f"{v} {Z}"), (1, f"{Z} {v}")):
+                ops.append(f"br.inst.aware {od} {us} {fold} {views}")
+                ops.append(f"br.odt.aware {od} {us} {fold} {views}")
+        for views in ("0 0 0 0 0 0 0 0", "1 0 0 0 1 0 0 0", f"1 0 0 0 {Z}", f"{Z} 0 0 0 0"):
+            for fold in (0, 1):
+                ops.append(f"br.inst.aware {od} {us} {fold} {views}")
+                ops.append(f"br.odt.aware {od} {us} {fold} {views}")
+                ops.append(f"br.ldt.aware {od} {us} {fold} {c11.cal_tok(0)} {views}")
+                ops.append(f"br.time.aware {us} {fold} {views}")
+    return ops
 
 
 def gen_ops(ctx, n):
@@ -558,10 +853,101 @@ def gen_ops(ctx, n):
     return ops
 
 
+ZONE_KEYS = ["Europe/London", "America/New_York", "Australia/Lord_Howe", "Asia/Kolkata", "Asia/Kathmandu", "Pacific/Apia",
+             "America/St_Johns", "Africa/Monrovia", "Europe/Amsterdam", "Pacific/Kiritimati", "America/Sao_Paulo", "Asia/Tehran",
+             "Europe/Dublin", "Antarctica/Troll", "UTC"]
+ZONE_FIXED = [("Europe/London", (2020, 10, 25, 1, 30, 0, 0)), ("America/New_York", (2021, 11, 7, 1, 30, 0, 5)),
+              ("Australia/Lord_Howe", (2021, 4, 4, 1, 45, 0, 0)), ("Europe/London", (2020, 3, 29, 1, 30, 0, 0)),
+              ("Pacific/Apia", (2011, 12, 30, 12, 0, 0, 0)), ("Africa/Monrovia", (1972, 1, 7, 0, 10, 0, 999_999)),
+              ("Europe/Amsterdam", (1930, 6, 1, 12, 0, 0, 1)), ("UTC", (1, 1, 1, 0, 0, 0, 0)), ("UTC", (9999, 12, 31, 23, 59, 59, 999_999)),
+              ("America/New_York", (9999, 12, 31, 23, 59, 59, 999_999)), ("Pacific/Kiritimati", (1, 1, 1, 0, 0, 0, 0))]
+
+
+def zone_cases(ctx):
+    rng = ctx.rng
+    out = []
+    for key, f in ZONE_FIXED:
+        out += [(key, f, 0), (key, f, 1)]
+    for key in ZONE_KEYS:
+        for _ in range(ctx.scale(120, 6000)):
+            r = rng.random()
+            y = rng.choice([1, 2, 1883, 1900, 1916, 1945, 1970, 2007, 2037, 2038, 9999]) if r < 0.2 else rng.randint(1850, 2100) if r < 0.9 else rng.randint(1, 9999)
+            if rng.random() < 0.5:
+                mo, h = rng.choice([3, 4, 9, 10, 11]), rng.randint(0, 3)            # where most transitions are
+            else:
+                mo, h = rng.randint(1, 12), rng.randint(0, 23)
+            f = (y, mo, rng.randint(1, 28), h, rng.choice([0, 15, 30, 45, rng.randint(0, 59)]), rng.choice([0, 0, 59, rng.randint(0, 59)]),
+                 rng.choice([0, 0, 1, 999_999, rng.randint(0, 999_999)]))
+            out += [(key, f, 0), (key, f, 1)]
+    return out
+
+
+_fold_sensitive = [0]
+
+
+def check_zone_case(case):
+    """real zoneinfo zones (utcoffset depends on the local time and on fold): both aware conversions agree with the
+    standard library's own arithmetic on that datetime"""
+    import zoneinfo
+    P = _P()
+    c11 = _c11()
+    key, f, fold = case
+    try:
+        z = zoneinfo.ZoneInfo(key)
+    except Exception:  # noqa: BLE001   (zone not in this system's tz database: nothing to check)
+        return None
+    x = dtm.datetime(*f, tzinfo=z, fold=fold)
+    off = x.utcoffset()
+    if off != x.replace(fold=1 - fold).utcoffset():
+        _fold_sensitive[0] += 1
+    off_us = (off.days * 86400 + off.seconds) * 10**6 + off.microseconds
+    local_us = (x.toordinal() - ORD0) * UPD + us_of(x)
+    ns = (local_us - off_us) * 1000
+    try:
+        i, ie = P.Instant.from_aware_datetime(x), None
+    except (ValueError, OverflowError, TypeError, RuntimeError) as ex:
+        i, ie = None, type(ex).__name__
+    if not IMIN * NPD <= ns <= (IMAX + 1) * NPD - 1:
+        if ie is None:
+            return fail("inst-from-out-of-range-returned", f"{case}: from_aware_datetime({x!r}) returned {c11.s_inst(i)}")
+    elif ie or i._days_since_epoch * NPD + i._nanosecond_of_day != ns:
+        return fail("inst-from-inexact" if not ie else "inst-from-raises",
+                    f"{case}: Instant.from_aware_datetime({x!r}) -> {ie or c11.s_inst(i)}; the datetime's utc offset is {off}, exact instant {divmod(ns, NPD)}")
+    elif ns >= -(ORD0 - 1) * NPD:
+        ref = x - dtm.datetime(1970, 1, 1, tzinfo=UTC)
+        if (ref.days * UPD + ref.seconds * 10**6 + ref.microseconds) * 1000 != ns:
+            return fail("oracle-exception", f"{case}: stdlib subtraction disagrees with the integer reference")
+        r = i.to_datetime_utc()
+        if (r.toordinal(), us_of(r)) != divmod(local_us - off_us + ORD0 * UPD, UPD) or r.utcoffset() != dtm.timedelta(0):
+            return fail("inst-roundtrip", f"{case}: from_aware_datetime({x!r}).to_datetime_utc() = {r!r}")
+    if off_us % 10**6 or abs(off_us) > OFF_MAX * 10**6:
+        return None                                   # not the case for any tz database zone
+    try:
+        o = P.OffsetDateTime.from_aware_datetime(x)
+    except (ValueError, OverflowError, TypeError, RuntimeError) as ex:
+        return fail("odt-from-raises-in-range", f"{case}: OffsetDateTime.from_aware_datetime({x!r}) raised {type(ex).__name__}")
+    if c11.s_odt(o) != ints(0, x.toordinal() - ORD0, us_of(x) * 1000, off_us // 10**6):
+        return fail("odt-from-inexact", f"{case}: from_aware_datetime({x!r}) = {c11.s_odt(o)}; utc offset {off}")
+    r = o.to_aware_datetime()
+    if r.utcoffset() != off or (r.toordinal(), us_of(r)) != (x.toordinal(), us_of(x)):
+        return fail("odt-roundtrip", f"{case}: from_aware_datetime({x!r}).to_aware_datetime() = {r!r}")
+    return None
+
+
 def run(ctx):
     ops = gen_ops(ctx, ctx.scale(60_000, 3_000_000))
     ctx.correspond("bridge.ops", ops, impl, oracle=oracle, neighbours=neighbours)
+    ctx.correspond("bridge.aware", gen_aware_ops(ctx, ctx.scale(15_000, 800_000)), impl, oracle=oracle, neighbours=neighbours)
+    _fold_sensitive[0] = 0
+    ctx.check_cases("zoneinfo.zones", zone_cases(ctx), check_zone_case)
+    ctx.note("zoneinfo_cases_whose_utcoffset_depends_on_fold", _fold_sensitive[0])
+    if _fold_sensitive[0] < 4:
+        ctx.assumptions.append("fewer than 4 zoneinfo cases had a fold-dependent utcoffset (system tz database missing or incomplete); "
+                               "fold-dependent offsets are then covered by the custom tzinfo of suite bridge.aware only")
 
 
 def replay_op(op, failure):
-    return oracle(op.split(" "))
+    if op.startswith("("):
+        import ast
+        return check_zone_case(ast.literal_eval(op))
+    return oracle1(op.split(" "))
